@@ -71,13 +71,13 @@ FEATURES = STD_FEATURES + EXTRA_FEATURES
 PATTERNS_QUICK = [
     None, '*', '**', '**/f', 'a*', 'a*/', 'work', 'work/*', 'log',
     'log/job', 'share', 'share/cycle', 'share/*', 'ln_out_d', 'ln_out_d/*',
-    'ln_*', 'ln_*/*', '*/*', '**/keep', 'a2/*/*',
+    'ln_*', 'ln_*/*', '*/*', '**/keep', 'a2/*/*', '../otherwf',
 ]
 PATTERNS_THOROUGH = PATTERNS_QUICK + [
     'work/', 'work/d', 'log/*', 'log/job/*', 'share/cycle/*', 'ln_out_d/',
     'ln_in_d/*', 'ln_broken', '[al]*', 'a2/../a1', '*/*/*', 'work/*/*',
     '*/f:a1', 'ln_tgt/*', 'ln_sib/*', '**/', 'work/../../otherwf',
-    '../otherwf', '/etc',
+    '/etc',
 ]
 
 
@@ -594,7 +594,7 @@ def _work(job):
 
 
 def run(ctx: Ctx) -> Result:
-    k = ctx.pick(3, 4)
+    k = ctx.pick(3, 5)
     patterns = ctx.pick(PATTERNS_QUICK, PATTERNS_THOROUGH)
     tr = trees(k)
     base = ctx.scratch / 'c38'
